@@ -43,6 +43,22 @@ def r1(c):
         pv = Provenance(fn)
         gm = GuardMap(fn)
         cols = [x for x in calls_in(fn) if call_name(x) == "collapse_vlandb" and x.args]
+        # a same-module helper that collapses one of its parameters carries the obligation to its call sites
+        carriers = {}
+        for node in m.tree.body:
+            if isinstance(node, ast.FunctionDef) and node.name != fn.name:
+                ps = [a.arg for a in node.args.args]
+                hpv = Provenance(node)
+                for x in calls_in(node):
+                    if call_name(x) == "collapse_vlandb" and x.args:
+                        src0 = hpv.resolve_alias(x.args[0])
+                        if isinstance(src0, ast.Name) and src0.id in ps:
+                            carriers[node.name] = ps.index(src0.id)
+        via = {}
+        for x in calls_in(fn):
+            if call_name(x) in carriers and len(x.args) > carriers[call_name(x)]:
+                cols.append(x)
+                via[id(x)] = x.args[carriers[call_name(x)]]
         c.floor("C11.R1", f"{vendor} collapse calls", len(cols), 2)
         for col in cols:
             # is this the removal or the addition arm?  look at the yields fed by it
@@ -59,15 +75,16 @@ def r1(c):
                 arm = "addition"
             else:
                 raise AnchorError(f"{vendor}._process_vlandb: cannot tell whether `{norm(col)}` feeds removals or additions")
-            src = pv.resolve_alias(col.args[0])
+            arg0 = via.get(id(col), col.args[0])
+            src = pv.resolve_alias(arg0)
             shape = None
             if isinstance(src, ast.Call) and isinstance(src.func, ast.Attribute) and src.func.attr == "difference" and len(src.args) == 1:
                 shape = (src.func.value, src.args[0])
             elif isinstance(src, ast.BinOp) and isinstance(src.op, ast.Sub):
                 shape = (src.left, src.right)
-            elif isinstance(col.args[0], ast.Name):
+            elif isinstance(arg0, ast.Name):
                 # `added -= ...` refinements keep the difference as one of the reaching definitions
-                for d in pv.rd.defs(col.args[0]):
+                for d in pv.rd.defs(arg0):
                     v = d.value
                     if d.kind == "assign" and isinstance(v, ast.Call) and isinstance(v.func, ast.Attribute) and v.func.attr == "difference":
                         shape = (v.func.value, v.args[0])
@@ -121,8 +138,10 @@ def r2(c):
             atoms = G.atoms(f)
             consults = any("UNCHANGED" in a for a in atoms)
             single = G.implies(f, G.Not(G.Atom("multi"))) if "multi" in atoms else False
-            is_new_row = any(a.replace(" ", "") in ("1==len(diff[Op.ADDED])", "len(diff[Op.ADDED])==1") for a in atoms) and \
-                any(a.replace(" ", "") in ("0==len(new)", "len(new)==0") for a in atoms) and G.implies(f, G.And(*[G.Atom(a) for a in atoms if "len(" in a]))
+            one_added = [G.Atom(a) for a in atoms if a.replace(" ", "") in ("1==len(diff[Op.ADDED])", "len(diff[Op.ADDED])==1")]
+            # emptiness of the parsed new set: `len(new) == 0` or `not new`
+            empty_new = [G.Atom(a) for a in atoms if a.replace(" ", "") in ("0==len(new)", "len(new)==0")] + ([G.Not(G.Atom("new"))] if "new" in atoms else [])
+            is_new_row = any(G.implies(f, a) for a in one_added) and any(G.implies(f, e) for e in empty_new)
             ok = consults or single or is_new_row
             why = "consults UNCHANGED" if consults else "single-row key" if single else "the reset word is the new row itself" if is_new_row else ""
             if ok:
